@@ -197,7 +197,8 @@ Section Ring.
      same before and after relabelling; never "not in the algebra" *)
   Theorem C14_accessors : forall A D, iso A D -> forall n (x : mv R),
     NoDup n -> (forall g, In g n -> In g (alg_vecs A)) -> wfmv A x ->
-    exists v, spelled_coeff R rO ropp A n x = Some v /\ spelled_coeff R rO ropp D n (relabel A D x) = Some v.
+    exists v, spelled_coeff R rO rI radd rmul rsub ropp A n x = Some v /\
+              spelled_coeff R rO rI radd rmul rsub ropp D n (relabel A D x) = Some v.
   Proof. exact (iso_spelled_coeff R rO rI radd rmul rsub ropp Rth). Qed.
 End Ring.
 Print Assumptions C14_relabel_coeff.
